@@ -13,6 +13,12 @@ by apodisation x the product over the axes of the discrete-time Fourier sums of 
 `nufft1_row_error(_le)` / `row_error_phases`: the row error the oracle measures reduces to a kernel-only quantity;
 `nufft1B_per_item` / `nufft3B_per_item`: a batched transform is the same linear map on every item), Props/C06Nudft*.lean.  The accuracy bound itself (a property of Kaiser-Bessel / Beatty's beta) and the accuracy of
 the computed psf are analytic and only MEASURED by the search oracle.
+
+Input classes (hardening round 3): every stream and the oracle draw the kernel width from the whole interval [3, 6] (integers,
+halves / quarters, random sixteenths; handed over as Python int / float or numpy scalar) and oversamp from {1.25, 1.375, 1.5,
+1.75, 2}; the oracle also runs the batched calls on Fortran-ordered / strided / reversed views, float32 and (on-grid) int64
+coordinates, data of magnitude 1e+-30 / 1e+-100, real-dtype data (accuracy only), and interleaves a second live operator with
+another (oversamp, width) on the same arrays (repeated calls reproduce their result, caller's arrays unchanged).
 """
 import json
 import math
@@ -82,10 +88,41 @@ THEOREMS = ["SigpyVerif.C06." + t for t in [
 # kinds, batched) was 2.6e-5 for w=7 and for w=8 (median 1.3e-6 / 2.6e-6; limited by the Kaiser-Bessel accuracy of that
 # kernel and the complex64 psf); a psf built with a different kernel (e.g. the default oversamp=1.25 / width=4)
 # deviates by 1.6e-3 (10 % quantile) .. 3e-3 (median).  3e-4 is > 11 x the clean maximum and > 5 x below that quantile.
+# Fractional kernel widths 6.5 / 7.25 / 7.5 (the width is a float): clean-tree maxima over ~2900 cases of `gen_case` each
+# 3.9e-5 / 2.5e-5 / 7.1e-6, so the same 3e-4 (>= 7.7 x the clean maximum) applies; a psf whose normalisation differs from the
+# operator's (e.g. only one of the two transforms truncating a fractional width: (7.5/7)^ndim) deviates by >= 7e-2.
 TOEPLITZ_TOL = {8: 3e-4, 7: 3e-4}
+TOEPLITZ_WIDTHS = [7, 8, 8, 7.5, 7.25, 6.5]
+
+
+def toeplitz_tol(tw):
+    return TOEPLITZ_TOL.get(tw, 3e-4)
+
 
 OVERSAMPS = [1.25, 1.5, 2]
 WIDTHS = [3, 4, 5, 6]
+# The property quantifies over oversamp in [1.25, 2] and width in [3, 6] (documented type of both: float), not over the
+# integers / the three usual oversampling factors only: every stream also draws dyadic values in between (dyadic so that the
+# Lean driver receives exactly the number the real code receives).
+OVERSAMPS_X = [1.25, 1.375, 1.5, 1.75, 2]
+FRAC_WIDTHS = [Fraction(7, 2), Fraction(9, 2), Fraction(11, 2), Fraction(13, 4), Fraction(15, 4), Fraction(17, 4), Fraction(19, 4),
+               Fraction(21, 4), Fraction(23, 4), Fraction(49, 16), Fraction(95, 16)]
+
+
+def pick_width(rng):
+    """kernel width in [3, 6] as an exact (dyadic) Fraction: an integer, a half / quarter, or a random sixteenth"""
+    u = rng.random()
+    if u < 0.4:
+        return Fraction(rng.choice(WIDTHS))
+    if u < 0.75:
+        return rng.choice(FRAC_WIDTHS)
+    return Fraction(rng.randint(48, 96), 16)
+
+
+def width_arg(w):
+    """what is handed to sigpy for the width `w` (Fraction / number): a Python int when integral (the historical call), else a float"""
+    w = Fraction(w)
+    return int(w) if w.denominator == 1 else float(w)
 
 
 def translate(ctx):
@@ -166,8 +203,8 @@ def _apod_stream(ctx):
     for _ in range(40 if ctx.tier == "quick" else 300):
         nd = rng.choice([1, 2, 3])
         shape = [rng.randint(1, 9) for _ in range(nd)]
-        os_ = rng.choice(OVERSAMPS)
-        w = rng.choice(WIDTHS)
+        os_ = rng.choice(OVERSAMPS_X)
+        w = width_arg(pick_width(rng))
         for N in shape:
             lines.append("C06 formulas os=%s n=%d" % (R(os_), N))
         meta.append((shape, os_, w))
@@ -179,6 +216,7 @@ def _apod_stream(ctx):
         k += len(shape)
         ctx.case(("apod", tuple(shape), os_, w))
         ctx.count("apod:ndim%d" % len(shape))
+        ctx.count("apod:width-%s" % ("integer" if isinstance(w, int) else "fractional"))
         beta = beta_of(w, os_)
         try:
             x = np.ones([2] + shape, dtype=np.complex128)
@@ -223,10 +261,10 @@ def _reified_stream(ctx):
     for _ in range(30 if ctx.tier == "quick" else 250):
         nd = rng.choice([1, 2, 3])
         shape = [rng.randint(1, [0, 20, 8, 5][nd]) for _ in range(nd)]
-        cases.append((shape, rng.choice(OVERSAMPS), rng.choice(WIDTHS), rng.choice([[], [2]])))
+        cases.append((shape, rng.choice(OVERSAMPS_X), width_arg(pick_width(rng)), rng.choice([[], [2]])))
     lines = []
     for shape, os_, w, batch in cases:
-        lines.append("C06 consts os=%s shape=%s width=%d" % (R(os_), ",".join(map(str, shape)), w))
+        lines.append("C06 consts os=%s shape=%s width=%s" % (R(os_), ",".join(map(str, shape)), R(w)))
         for N in shape:
             lines.append("C06 scalecoord os=%s n=%d c=%s" % (R(os_), N, ",".join(R(Fraction(k, 8)) for k in (0, 3, -5, 8 * N + 1))))
     replies = ctx.driver(lines)
@@ -239,6 +277,7 @@ def _reified_stream(ctx):
         ctx.case(("reified", tuple(shape), os_, w, tuple(batch)), sample=dict(line=lines[k - 1 - nd], reply=r) if ctx.evaluations % 17 == 0 else None)
         ctx.count("reified:ndim%d" % nd)
         ctx.count("reified:os=%s" % os_)
+        ctx.count("reified:width-%s" % ("integer" if isinstance(w, int) else "fractional"))
         why = None
         try:
             if not r.startswith("ok "):
@@ -343,15 +382,17 @@ def _identity_stream(ctx):
                     v = Fraction(rng.randint(-8 * N, 8 * N), 16) + rng.choice([-3, -1, 1, 2, 17]) * N
                 row.append(v)
             coord.append(row)
-        cases.append((shape, rng.choice(OVERSAMPS), rng.choice(WIDTHS), coord, kind))
+        cases.append((shape, rng.choice(OVERSAMPS_X), pick_width(rng), coord, kind))
     lines = []
     for shape, os_, w, coord, kind in cases:
         for row in coord:
             for N, v in zip(shape, row):
-                lines.append("C06 kernelsum os=%s n=%d c=%s width=%d" % (R(os_), N, R(v), w))
+                lines.append("C06 kernelsum os=%s n=%d c=%s width=%s" % (R(os_), N, R(v), R(w)))
     replies = ctx.driver(lines)
     k = 0
-    for shape, os_, w, coord, kind in cases:
+    for shape, os_, wq, coord, kind in cases:
+        # wq: the exact width (Fraction, what the driver was given); w: the number handed to sigpy (int or float, == wq)
+        w = width_arg(wq)
         nd, npts = len(shape), len(coord)
         rs = replies[k:k + nd * npts]
         ln0 = lines[k]
@@ -360,6 +401,7 @@ def _identity_stream(ctx):
                  sample=dict(line=ln0, reply=rs[0]) if ctx.evaluations % 7 == 0 else None)
         ctx.count("identity:ndim%d" % nd)
         ctx.count("identity:%s" % kind)
+        ctx.count("identity:width-%s" % ("integer" if isinstance(w, int) else "fractional"))
         beta = beta_of(w, os_)
         why = None
         tie = False
@@ -381,16 +423,16 @@ def _identity_stream(ctx):
                     kf = float(fourier._scale_coord(np.array([[float(t) for t in row]]), shape, os_)[0, d])
                     if abs(kf - float(kappa)) > 1e-9 * (1 + abs(float(kappa))):
                         raise ValueError("_scale_coord gives %r, model kappa %s (axis %d, coordinate %s)" % (kf, kappa, d, v))
-                    if (math.ceil(kf - w / 2), math.floor(kf + w / 2)) != (math.ceil(kappa - Fraction(w, 2)), math.floor(kappa + Fraction(w, 2))):
+                    if (math.ceil(kf - w / 2), math.floor(kf + w / 2)) != (math.ceil(kappa - wq / 2), math.floor(kappa + wq / 2)):
                         tie = True
-                    idx = [a * Fraction(w, 2) + kappa for a in args]
+                    idx = [a * (wq / 2) + kappa for a in args]
                     if any(i.denominator != 1 for i in idx) or [int(i) % L for i in idx] != srcs:
                         raise ValueError("driver window indices / wrap inconsistent: %s vs %s" % (idx, srcs))
                     nu = np.arange(N) - N // 2
                     S = np.zeros(N, dtype=np.complex128)
                     for a in args:
-                        S += float(kb(float(a), beta) or 0.0) * np.exp(-2j * np.pi * float(a * Fraction(w, 2)) * nu / L)
-                    S /= w
+                        S += float(kb(float(a), beta) or 0.0) * np.exp(-2j * np.pi * float(a * (wq / 2)) * nu / L)
+                    S /= float(wq)
                     aa = (beta ** 2 - (math.pi * w * nu.astype(np.complex128) / L) ** 2) ** 0.5
                     apod = (aa / np.sinh(aa)).real
                     fac = N ** -0.5 * np.exp(-2j * np.pi * float(v) * nu / N) * apod * S
@@ -428,6 +470,8 @@ def correspond(ctx):
                 "(os_shape, scaled coords, kernel/width/beta handed over, scalings via centre deltas); identity: random shapes 1-3 D "
                 "x oversamp x width x 1-4 points (random sixteenths, on-grid, half-integer, out-of-range): the matrices of the real "
                 "nufft / nufft_adjoint against NUDFT x apodisation x kernel sum built from the driver's window data. "
+                "apodize / reified / identity draw oversamp from {1.25,1.375,1.5,1.75,2} and the width from [3,6]: integers (40 %), "
+                "halves / quarters, random sixteenths (the width is a float; dyadic so that model and code get the same number). "
                 "distinct by all parameters")
     bad = _formula_stream(ctx)
     ctx.oblige("correspondence:C06.formulas", "correspondence", bad == 0, "%d disagreements" % bad)
@@ -475,6 +519,44 @@ def correspond(ctx):
 
 
 # ---- search: exact NUDFT vs the real code -----------------------------------------------------------
+# Accuracy thresholds.  The statement names two numbers: relative l2 error below 3 % at the defaults (oversamp 1.25, width 4)
+# and below 0.3 % at oversamp = 2 (width 4), "set by the oversampling and kernel width".  They are applied
+#   * at exactly those settings (keys C06:accuracy.default / C06:accuracy.os2, unchanged), and
+#   * at every setting of the quantified domain that is at least as fine in BOTH parameters (oversamp >= 1.25 and width >= 4:
+#     3 %; oversamp >= 2 and width >= 4: 0.3 %; key C06:accuracy.finer): a Kaiser-Bessel kernel with Beatty's beta that is no
+#     narrower on a grid that is no coarser is at least as accurate.  Clean-tree maxima (gen_case, 120-400 cases per setting):
+#     (1.25, 4) 1.9e-2 [DESIGN: 2.2e-2 worst found], (1.25, 4.0625) 1.5e-2, (1.25, 4.5) 8.8e-3, (1.25, 5.5) 1.7e-3, (1.375, 4) 9.0e-3,
+#     (1.5, 4) 6.4e-3, (1.75, 4) 2.3e-3, (2, 4) 1.5e-3 [DESIGN: 2.4e-3], (2, 4.0625) 1.4e-3, (2, 4.5) 3.9e-4, (2, 5.5) 3.6e-5:
+#     monotone in both parameters, also for fractional widths.
+#   * For widths in [3, 4) the statement gives no number.  NARROW_BOUND is 2 x the clean-tree maximum at the narrowest kernel of
+#     the domain, width 3 (2500 cases of gen_case per oversamp: 1.02e-1 at 1.25 [shape 2x2x2], 3.4e-2 at 1.5, 1.5e-2 at 2;
+#     width 3.03125: 8.7e-2 / 3.4e-2 / 1.5e-2), applied to every width in [3, 4) at an oversamp at least that large
+#     (key C06:accuracy.narrow): it only separates the kernel's own error from a wrong normalisation / kernel parameter.
+NARROW_BOUND = [(2, 0.03), (1.5, 0.07), (1.25, 0.2)]
+
+
+def accuracy_bound(os_, w):
+    """(threshold, key suffix) for the per-coordinate relative l2 error at this setting, None outside the quantified domain"""
+    if os_ == "default" or w == "default":
+        return 0.03, "default"
+    os_, w = float(os_), float(w)
+    if not (1.25 <= os_ <= 2 and 3 <= w <= 6):
+        return None
+    if w >= 4:
+        if os_ >= 2:
+            return 0.003, ("os2" if w == 4 else "finer")
+        return 0.03, ("default" if (os_, w) == (1.25, 4.0) else "finer")
+    for o, b in NARROW_BOUND:
+        if os_ >= o:
+            return b, "narrow"
+    return None
+
+
+LAYOUTS = ["C", "C", "F", "strided", "reversed"]
+WTYPES_FRAC = ["py", "py", "np.float64", "np.float32"]
+WTYPES_INT = ["py", "py", "py", "float", "np.int64", "np.float64"]
+
+
 def gen_case(rng, os_w=None, shape=None):
     nd = rng.choice([1, 1, 2, 2, 3])
     hi = [0, 24, 8, 5][nd]
@@ -506,13 +588,35 @@ def gen_case(rng, os_w=None, shape=None):
                 v = rng.uniform(-0.5, 0.5) * N + rng.choice([-3, -1, 1, 2, 17]) * N
             row.append(v)
         co.append(row)
+
+    def any_os_w():
+        if rng.random() < 0.45:
+            return rng.choice([(1.25, 4), (1.25, 4), (2, 4), (2, 4), ("default", "default")] +
+                              [(o, w) for o in OVERSAMPS for w in WIDTHS])
+        return rng.choice(OVERSAMPS_X), width_arg(pick_width(rng))
+
     if os_w is None:
-        os_w = rng.choice([(1.25, 4), (1.25, 4), (2, 4), (2, 4), ("default", "default")] +
-                          [(o, w) for o in OVERSAMPS for w in WIDTHS])
+        os_w = any_os_w()
+    alt = any_os_w()
+    if alt[0] == "default":
+        alt = (1.25, 4)
     batch = rng.choice([[], [], [2], [1, 2]])
+    # how the width is handed over: a Python int / float or a numpy scalar (the documented type is float)
+    frac = os_w[1] != "default" and Fraction(os_w[1]).denominator != 1
+    wtype = "py" if os_w[1] == "default" else rng.choice(WTYPES_FRAC if frac else WTYPES_INT)
+    # memory layout of the data / coordinate arrays handed to the batched calls (values unchanged); float32 coordinates
+    # (values rounded to float32 here, so that the reference uses exactly the numbers the code receives) only where |k| <= N/2 + 1
+    # and integer-dtype coordinates (int64) where every coordinate is integer valued (on-grid sampling patterns)
+    clayout = rng.choice(LAYOUTS + (["f32", "f32"] if kind != "out-of-range" else []) + (["i64", "i64"] if kind == "on-grid" else []))
+    if clayout == "f32":
+        co = [[float(np.float32(v)) for v in row] for row in co]
+    c64 = rng.random() < 0.25
     return dict(shape=shape, pts=pts, kind=kind, coord=co, os=os_w[0], width=os_w[1], batch=batch,
-                c64=rng.random() < 0.25, seed=rng.randint(0, 10 ** 9),
-                shift=[rng.choice([-2, -1, 1, 3]) for _ in shape], toep_width=rng.choice([7, 8, 8]))
+                c64=c64, adtype=rng.choice(["complex64", "complex64", "float64", "float32"]) if c64 else "complex128",
+                seed=rng.randint(0, 10 ** 9),
+                shift=[rng.choice([-2, -1, 1, 3]) for _ in shape], toep_width=rng.choice(TOEPLITZ_WIDTHS),
+                wtype=wtype, xlayout=rng.choice(LAYOUTS), clayout=clayout,
+                mag=rng.choice([1.0, 1.0, 1.0, 1e-30, 1e30, 1e-100, 1e100]), alt=list(alt))
 
 
 def nudft_matrix(shape, coord):
@@ -525,8 +629,34 @@ def nudft_matrix(shape, coord):
     return np.exp(-2j * np.pi * ph).reshape(coord.shape[0], -1) / math.sqrt(float(np.prod(shape)))
 
 
+_WTYPE = {"py": lambda w: w, "float": float, "np.float64": np.float64, "np.float32": np.float32, "np.int64": np.int64}
+
+
 def kw_of(c):
-    return {} if c["os"] == "default" else dict(oversamp=c["os"], width=c["width"])
+    if c["os"] == "default":
+        return {}
+    return dict(oversamp=c["os"], width=_WTYPE[c.get("wtype", "py")](c["width"]))
+
+
+def lay(a, kind):
+    """the same values in another memory layout: Fortran order, a strided view of a larger buffer, a reversed (negative
+    strides) view; 'f32' (coordinates only): float32 (the values are float32-representable by construction); 'i64'
+    (on-grid coordinates only): int64 (the values are integers by construction)"""
+    if kind == "F":
+        return np.asfortranarray(a)
+    if kind == "strided" and a.ndim:
+        big = np.zeros([2 * n + 1 for n in a.shape], dtype=a.dtype)
+        view = big[tuple(slice(1, None, 2) for _ in a.shape)]
+        view[...] = a
+        return view
+    if kind == "reversed" and a.ndim:
+        rev = tuple(slice(None, None, -1) for _ in a.shape)
+        return np.ascontiguousarray(a[rev])[rev]
+    if kind == "f32":
+        return a.astype(np.float32)
+    if kind == "i64":
+        return a.astype(np.int64)
+    return a
 
 
 def impl_matrices(c, coord=None, dtype=np.complex128, adjoint=True):
@@ -572,19 +702,23 @@ def check_case(ctx, c, origin):
         ok = False
         ctx.fail(key, what, c, observed=observed, expected=expected, origin=origin)
 
+    # the data dtype of the accuracy-only branch: complex64, or REAL data (float64 / float32: a real image is a complex input
+    # with zero imaginary part; sigpy transforms it in single precision, which is far below the thresholds)
+    adtype = np.dtype(c.get("adtype", "complex64" if c["c64"] else "complex128"))
     try:
-        A, AH = impl_matrices(c, dtype=np.complex64 if c["c64"] else np.complex128, adjoint=not c["c64"])
+        A, AH = impl_matrices(c, dtype=adtype, adjoint=not c["c64"])
     except Exception as e:  # noqa
         fail("C06:raises", "nufft / nufft_adjoint raised %s on a valid request" % type(e).__name__, repr(e), "result")
         return False
     E = nudft_matrix(shape, flat)
-    # 1. accuracy, exactly at the two settings the statement names; per coordinate: ||row(nufft) - row(NUDFT)||_2 / ||row(NUDFT)||_2
-    thr = {(1.25, 4): 0.03, ("default", "default"): 0.03, (2, 4): 0.003}.get((c["os"], c["width"]))
-    if thr is not None:
+    # 1. accuracy; per coordinate: ||row(nufft) - row(NUDFT)||_2 / ||row(NUDFT)||_2 (thresholds: see `accuracy_bound`)
+    bound = accuracy_bound(c["os"], c["width"])
+    if bound is not None:
+        thr, suffix = bound
         rel = np.linalg.norm(A - E, axis=1) / np.linalg.norm(E, axis=1)
         if not np.all(rel < thr):
             j = int(np.argmax(rel))
-            fail("C06:accuracy.%s" % ("os2" if c["os"] == 2 else "default"),
+            fail("C06:accuracy.%s" % suffix,
                  "relative l2 error of nufft against the exact NUDFT exceeds %g (%s)" % (thr, tag),
                  dict(point=j, coord=flat[j].tolist(), rel_err=float(rel[j])), "< %g" % thr)
     if c["c64"]:
@@ -610,27 +744,61 @@ def check_case(ctx, c, origin):
                  dict(rel=float(np.linalg.norm(A2 - A) / nA), shift=c["shift"]), "<= 1e-6 relative")
     except Exception as e:  # noqa
         fail("C06:raises", "nufft raised %s on shifted coordinates" % type(e).__name__, repr(e), "result")
-    # 4. batch axes and Linops: same linear map on every batch entry, documented shapes
+    # 4. batch axes and Linops: same linear map on every batch entry, documented shapes -- for the data / coordinates in the
+    #    case's memory layout (C, Fortran, strided view, reversed view; float32 coordinates) and magnitude (the transform is
+    #    linear: x * 1e+-30 / 1e+-100 must give the same relative result).  The reference is the implementation's own matrix A
+    #    (C-contiguous float64 calls) whose accuracy / adjointness are decided above.
     rs = np.random.RandomState(c["seed"])
-    x = rs.randn(*(batch + shape)) + 1j * rs.randn(*(batch + shape))
-    y = rs.randn(*(batch + pts)) + 1j * rs.randn(*(batch + pts))
+    mag = float(c.get("mag", 1.0))
+    xl, cl = c.get("xlayout", "C"), c.get("clayout", "C")
+    x = (rs.randn(*(batch + shape)) + 1j * rs.randn(*(batch + shape))) * mag
+    y = (rs.randn(*(batch + pts)) + 1j * rs.randn(*(batch + pts))) * mag
+    xv, yv, cv = lay(x, xl), lay(y, xl), lay(coord, cl)
+    x0, y0, c0 = xv.copy(), yv.copy(), cv.copy()
+    # float32 coordinates are scaled and interpolated in single precision (|kappa| <= ~50 here): observed deviation from the
+    # float64-coordinate result <= 8.7e-6 relative (clean tree, 4000 cases, forward and adjoint); 1e-3 is > 100 x that
+    tol = 1e-3 if cl == "f32" else 1e-6
+    vtag = "%s; x %s, coord %s, magnitude %g" % (tag, xl, cl, mag)
+
+    def close(a, b, t=None):
+        nb = float(np.linalg.norm(b / mag))
+        return bool(np.linalg.norm(a / mag - b / mag) <= (tol if t is None else t) * nb)
+
     try:
-        got = np.asarray(sp.nufft(x, coord, **kw_of(c)))
+        got = np.asarray(sp.nufft(xv, cv, **kw_of(c)))
         want = (x.reshape(-1, A.shape[1]) @ A.T).reshape(batch + pts)
-        if list(got.shape) != batch + pts or not np.linalg.norm(got - want) <= 1e-6 * np.linalg.norm(want):
-            fail("C06:batch", "nufft on a batched input differs from the per-item transform / shape (%s)" % tag,
+        if list(got.shape) != batch + pts or not close(got, want):
+            fail("C06:batch", "nufft on a batched input differs from the per-item transform / shape (%s)" % vtag,
                  list(got.shape), batch + pts)
-        gota = np.asarray(sp.nufft_adjoint(y, coord, oshape=batch + shape, **kw_of(c)))
+        gota = np.asarray(sp.nufft_adjoint(yv, cv, oshape=batch + shape, **kw_of(c)))
         wanta = (y.reshape(-1, A.shape[0]) @ A.conj()).reshape(batch + shape)
-        if list(gota.shape) != batch + shape or not np.linalg.norm(gota - wanta) <= 1e-6 * np.linalg.norm(wanta):
-            fail("C06:batch.adjoint", "nufft_adjoint on a batched input differs from A^H per item / shape (%s)" % tag,
+        if list(gota.shape) != batch + shape or not close(gota, wanta):
+            fail("C06:batch.adjoint", "nufft_adjoint on a batched input differs from A^H per item / shape (%s)" % vtag,
                  list(gota.shape), batch + shape)
-        F = linop.NUFFT(batch + shape, coord, **kw_of(c))
-        gl, gh = np.asarray(F(x)), np.asarray(F.H(y))
-        if not (np.linalg.norm(gl - got) <= 1e-6 * np.linalg.norm(got) and np.linalg.norm(gh - gota) <= 1e-6 * np.linalg.norm(gota)):
-            fail("C06:linop", "linop.NUFFT / .H differ from nufft / nufft_adjoint (%s)" % tag, "differs", "equal")
+        F = linop.NUFFT(batch + shape, cv, **kw_of(c))
+        gl, gh = np.asarray(F(xv)), np.asarray(F.H(yv))
+        if not (close(gl, got, 1e-6) and close(gh, gota, 1e-6)):
+            fail("C06:linop", "linop.NUFFT / .H differ from nufft / nufft_adjoint (%s)" % vtag, "differs", "equal")
+        # 4b. histories: a second live operator with another (oversamp, width) on the same arrays, calls interleaved; every
+        #     repeated call must reproduce its first result and no call may modify the caller's arrays
+        alt = c.get("alt")
+        if alt:
+            G = linop.NUFFT(batch + shape, cv, oversamp=alt[0], width=alt[1])
+            g1, k1 = np.asarray(G(xv)), np.asarray(G.H(yv))
+            f2, h2 = np.asarray(F(xv)), np.asarray(F.H(yv))
+            g2 = np.asarray(sp.nufft(xv, cv, oversamp=alt[0], width=alt[1]))
+            k2 = np.asarray(sp.nufft_adjoint(yv, cv, oshape=batch + shape, oversamp=alt[0], width=alt[1]))
+            f3 = np.asarray(sp.nufft(xv, cv, **kw_of(c)))
+            if not (close(f2, gl, 1e-12) and close(h2, gh, 1e-12) and close(f3, got, 1e-12) and close(g2, g1, 1e-6) and close(k2, k1, 1e-6)):
+                fail("C06:reuse", "a repeated nufft / nufft_adjoint call gives a different result after calls with oversamp=%s, "
+                     "width=%s on the same arrays (%s)" % (alt[0], alt[1], vtag), "differs", "equal")
+        if not (np.array_equal(xv, x0) and np.array_equal(yv, y0) and np.array_equal(cv, c0)):
+            fail("C06:reuse.mutates", "nufft / nufft_adjoint / NUFFT modified the caller's data or coordinate array (%s)" % vtag,
+                 dict(x=bool(np.array_equal(xv, x0)), y=bool(np.array_equal(yv, y0)), coord=bool(np.array_equal(cv, c0))), "unchanged")
     except Exception as e:  # noqa
-        fail("C06:raises", "batched nufft / Linop raised %s" % type(e).__name__, repr(e), "result")
+        fail("C06:raises:integer-coord" if cl == "i64" else "C06:raises",
+             "batched nufft / Linop raised %s (%s)" % (type(e).__name__, vtag), repr(e), "result")
+    x, y = x / mag, y / mag
     # 5. Toeplitz normal operator: NUFFT(..., toeplitz=True).N must be A^H A of THAT operator (its own oversamp / width):
     #    compared at an accurate kernel (oversamp=2, width 7/8) so that a psf built with any other kernel is visible
     tw = c.get("toep_width")
@@ -641,9 +809,9 @@ def check_case(ctx, c, origin):
             th = np.asarray(T.H(T(x)))
             den = np.linalg.norm(th)
             rel = float(np.linalg.norm(tn - th) / den) if den > 0 else float(np.linalg.norm(tn))
-            if list(tn.shape) != batch + shape or not rel <= TOEPLITZ_TOL[tw]:
-                fail("C06:toeplitz.normal", "NUFFT(oversamp=2, width=%d, toeplitz=True).N(x) differs from A.H(A(x))" % tw,
-                     dict(rel=rel, shape=list(tn.shape)), "<= %g relative (l2)" % TOEPLITZ_TOL[tw])
+            if list(tn.shape) != batch + shape or not rel <= toeplitz_tol(tw):
+                fail("C06:toeplitz.normal", "NUFFT(oversamp=2, width=%s, toeplitz=True).N(x) differs from A.H(A(x))" % tw,
+                     dict(rel=rel, shape=list(tn.shape)), "<= %g relative (l2)" % toeplitz_tol(tw))
         except Exception as e:  # noqa
             fail("C06:raises", "Toeplitz normal operator raised %s" % type(e).__name__, repr(e), "result")
     return ok
@@ -657,13 +825,19 @@ def search(ctx, budget):
             for _ in range(4):
                 c = gen_case(rng, os_w=(cc["os"], cc["width"]), shape=cc["reified_shape"])
                 check_case(ctx, c, "disagreement")
-    n = int(600 * budget)
+    n = int(900 * budget)
     for _ in range(n):
         c = gen_case(rng)
         ctx.case(("oracle", json.dumps(c, sort_keys=True)))
         ctx.count("oracle:%s" % c["kind"])
         ctx.count("oracle:ndim%d" % len(c["shape"]))
-        ctx.count("oracle:os=%s,w=%s" % (c["os"], c["width"]))
+        frac = c["width"] != "default" and Fraction(c["width"]).denominator != 1
+        ctx.count("oracle:os=%s,w=%s" % (c["os"], "fractional" if frac else c["width"]))
+        ctx.count("oracle:width-type=%s" % c["wtype"])
+        ctx.count("oracle:layout x=%s" % c["xlayout"])
+        ctx.count("oracle:layout coord=%s" % c["clayout"])
+        if c["mag"] != 1.0:
+            ctx.count("oracle:magnitude!=1")
         if c["batch"]:
             ctx.count("oracle:batched")
         check_case(ctx, c, "search")
